@@ -525,6 +525,15 @@ class Interp:
             if not self.ctx.branch(c):
                 break
             turns += 1
+            pb = getattr(self.ctx, "poll_bound", None)
+            if pb is not None and turns > pb:
+                # the contract's stated termination measure is exceeded on THIS path: if the path is
+                # feasible the loop makes more turns than the assumption it rests on allows (a wait that
+                # no longer ends shows up here, not as an endless exploration)
+                key = self.loop_key(st, frame)
+                oname = "%s.%s.loop%d.bounded_turns" % (self.ctx.ghost.get("contract_name", "?"), key[0], key[1])
+                self.ctx.oblige(oname, False, info={"loop": "%s loop %d" % key, "bound": pb, "line": st.lineno})
+                raise PathEnd()
             if turns > MAX_LOOP:
                 raise Unsupported("loop bound in %s line %d" % (frame.func.key if frame.func else "?", st.lineno))
             try:
